@@ -281,6 +281,94 @@ Theorem C11_source_absolute_width O (HO : Py.ops_ok O) stf (HS : A.stf_oracle O 
 Proof. exact (A.gen_absolute_width O HO stf HS root ltr l r w ml mr pl pr bl br pos cbx cby cbw cbh). Qed.
 Print Assumptions C11_source_absolute_width.
 
+(* ---- absolute_replaced of weasyprint/layout/absolute.py (CSS 2.1 10.3.8 / 10.6.5), the WHOLE body REGENERATED from
+   the source on every run (gen/GenAbsReplaced.v): for every pattern of 'auto' among left / right / margin_left /
+   margin_right and top / bottom / margin_top / margin_bottom, every parent direction (root / ltr / rtl) and all
+   numbers it never raises and returns the mutated box whose fields are, axis by axis, the model abs_replaced_axis
+   (A.hbox_rep / A.vbox_rep, numbers up to ==), so C11_abs_replaced_* above are about the source.
+   inline_replaced_box_width_height is an oracle statement (AR.sizes_oracle: it leaves numbers w, h in box.width,
+   box.height); box.margin_width() / border_width() / margin_height() / border_height() are call oracles here
+   (ARS.methods_ok) and the Box methods regenerated from formatting_structure/boxes.py in the _linked form. *)
+Require WV.gen.GenAbsReplaced WV.proofs.C11_gen_replaced_steps WV.proofs.C11_gen_replaced.
+Module ARS := WV.proofs.C11_gen_replaced_steps.
+Module AR := WV.proofs.C11_gen_replaced.
+
+Theorem C11_source_absolute_replaced O (HO : Py.ops_ok O) (HM : ARS.methods_ok O) ctx rv cbx cby cbw cbh
+        root ltr l r ml mr t bo mt mb w0 h0 w h pl pr bl br px pt pb bt bb py
+        (HOr : AR.sizes_oracle O rv cbw cbh root ltr l r ml mr t bo mt mb w0 h0 w h pl pr bl br px pt pb bt bb py) :
+  Py.run O GenAbsReplaced.absolute_replaced_body
+    (AR.env_in ctx cbx cby cbw cbh root ltr l r ml mr t bo mt mb w0 h0 pl pr bl br px pt pb bt bb py)
+    (AR.replaced_post
+       (abs_replaced_axis true (root || ltr) cbx cbw (A.haxis l r (Some w) ml mr pl pr bl br px))
+       (abs_replaced_axis false true cby cbh (A.vaxis t bo (Some h) mt mb pt pb bt bb py)))
+    (fun _ => False).
+Proof.
+  exact (AR.gen_absolute_replaced O HO HM ctx rv cbx cby cbw cbh root ltr l r ml mr t bo mt mb w0 h0 w h
+           pl pr bl br px pt pb bt bb py HOr).
+Qed.
+Print Assumptions C11_source_absolute_replaced.
+
+(* the clauses about the regenerated body itself (AR.axis_clauses, per axis: the used values are numbers with
+   start + margin + padding/border + size + margin + end = containing block size and position = origin + start for
+   ALL inputs; not over-constrained: every specified value is the used one; two auto margins between specified
+   offsets are equal - horizontally when the box fits, else the start-side one is 0 (ltr) / the end-side one (rtl);
+   over-constrained: ltr ignores right (bottom), rtl ignores left; both offsets auto in ltr: static position) *)
+Theorem C11_source_absolute_replaced_clauses O (HO : Py.ops_ok O) (HM : ARS.methods_ok O) ctx rv cbx cby cbw cbh
+        root ltr l r ml mr t bo mt mb w0 h0 w h pl pr bl br px pt pb bt bb py
+        (HOr : AR.sizes_oracle O rv cbw cbh root ltr l r ml mr t bo mt mb w0 h0 w h pl pr bl br px pt pb bt bb py) :
+  Py.run O GenAbsReplaced.absolute_replaced_body
+    (AR.env_in ctx cbx cby cbw cbh root ltr l r ml mr t bo mt mb w0 h0 pl pr bl br px pt pb bt bb py)
+    (fun rho res =>
+       exists bh bv B, res = Some B /\ Py.lookup "box" rho = B /\ A.hbox_rep B bh /\ A.vbox_rep B bv /\
+         AR.axis_clauses true (root || ltr) cbx cbw (A.haxis l r (Some w) ml mr pl pr bl br px) bh /\
+         AR.axis_clauses false true cby cbh (A.vaxis t bo (Some h) mt mb pt pb bt bb py) bv)
+    (fun _ => False).
+Proof.
+  exact (AR.gen_absolute_replaced_clauses O HO HM ctx rv cbx cby cbw cbh root ltr l r ml mr t bo mt mb w0 h0 w h
+           pl pr bl br px pt pb bt bb py HOr).
+Qed.
+Print Assumptions C11_source_absolute_replaced_clauses.
+
+(* nothing left abstract but the replaced-size oracle: margin_width / border_width / margin_height / border_height
+   (and the padding ones they call) are the Box methods regenerated from formatting_structure/boxes.py *)
+Theorem C11_source_absolute_replaced_linked n sizes ctx rv cbx cby cbw cbh
+        root ltr l r ml mr t bo mt mb w0 h0 w h pl pr bl br px pt pb bt bb py :
+  sizes (AR.box_in root ltr l r ml mr t bo mt mb pl pr bl br px pt pb bt bb py w0 h0) (Py.VList [Py.VNum cbw; Py.VNum cbh])
+    = Py.VList [rv; AR.box_in root ltr l r ml mr t bo mt mb pl pr bl br px pt pb bt bb py (Py.VNum w) (Py.VNum h)] ->
+  Py.run (AR.replaced_ops (S (S (S n))) sizes) GenAbsReplaced.absolute_replaced_body
+    (AR.env_in ctx cbx cby cbw cbh root ltr l r ml mr t bo mt mb w0 h0 pl pr bl br px pt pb bt bb py)
+    (AR.clauses_post (root || ltr) cbx cby cbw cbh (A.haxis l r (Some w) ml mr pl pr bl br px)
+                     (A.vaxis t bo (Some h) mt mb pt pb bt bb py))
+    (fun _ => False).
+Proof.
+  exact (AR.gen_absolute_replaced_linked n sizes ctx rv cbx cby cbw cbh root ltr l r ml mr t bo mt mb w0 h0 w h
+           pl pr bl br px pt pb bt bb py).
+Qed.
+Print Assumptions C11_source_absolute_replaced_linked.
+
+(* ---- the end of absolute_block (after the loop over the absolute descendants) REGENERATED from the source
+   (GenAbsReplaced.absolute_block_translate_body): `if translate_box_width: translate_x -= new_box.width`, likewise
+   vertically, `new_box.translate(translate_x, translate_y)`, `return new_box, resume_at`.  For every pair returned by
+   absolute_width / absolute_height (C11_source_absolute_width / _height above) and every laid-out box,
+   new_box.translate receives exactly the vector that final_pos (the model of the final position, on which
+   C11_abs_* rest) adds to the position, and the function returns (the translated box, resume_at).  box.translate is
+   an external statement (AT.translate_oracle: the box is left in the state tr [box; dx; dy; ignore_floats]). *)
+Require WV.proofs.C11_gen_translate.
+Module AT := WV.proofs.C11_gen_translate.
+
+Theorem C11_source_absolute_block_translate O (HO : Py.ops_ok O) ret tr (tbw tbh : bool) tx ty W H rest resume :
+  Py.run (Py.with_calls O (AT.translate_oracle ret tr)) GenAbsReplaced.absolute_block_translate_body
+    (AT.translate_env tbw tx tbh ty (AT.laid_box W H rest) resume)
+    (fun rho res =>
+       exists dx dy,
+         (forall x0, x0 + dx == final_pos x0 W (tbw, tx)) /\ (forall y0, y0 + dy == final_pos y0 H (tbh, ty)) /\
+         res = Some (Py.VList [tr [AT.laid_box W H rest; Py.VNum dx; Py.VNum dy; Py.VBool false]; resume]) /\
+         Py.lookup "new_box" rho = tr [AT.laid_box W H rest; Py.VNum dx; Py.VNum dy; Py.VBool false] /\
+         Py.lookup "%call" rho = ret)
+    (fun _ => False).
+Proof. exact (AT.gen_absolute_block_translate O HO ret tr tbw tbh tx ty W H rest resume). Qed.
+Print Assumptions C11_source_absolute_block_translate.
+
 (* ---- get_clearance of weasyprint/layout/float.py REGENERATED from the source, with
    excluded_shape.margin_height() answered by the Box methods margin_height / border_height / padding_height
    REGENERATED from formatting_structure/boxes.py (base/PyLink.v): for every list of placed floats (side, position,
